@@ -135,6 +135,67 @@ def handleMusig : List String → String
       else if signers.length == 1 then agg ++ " single"
       else agg ++ " " ++ (out.filter (·.startsWith "sig=")).headD "sig=?"
     | _, _, _ => "bad-op"
+  | ["ctx2", _, msg, tw, signers] =>
+    match hexToList? msg, parseTweakOpt? tw, (signers.splitOn ",").mapM parseSigner? with
+    | some msg, some tw, some signers =>
+      if signers.length == 1 then "single" else
+      let out := (session true msg tw signers).splitOn " "
+      if out == ["err:keyagg"] then "err:keyagg" else
+      let keys := signers.map (fun (d, _) => mulG d)
+      let int := match tw, aggregateKeys keys true (twOf tw) with
+        | some (.taproot _), some ak => showPoint ak.pre
+        | some .bip86, some ak => showPoint ak.pre
+        | _, _ => "-"
+      let pick (pre : String) := (out.filter (·.startsWith pre)).headD (pre ++ "?")
+      let head := s!"{pick "agg="} int={int} {pick "nonce="}"
+      if out.any (· == "err:sign") then head ++ " err:sign" else head ++ " " ++ pick "sig="
+    | _, _, _ => "bad-op"
+  | ["lows", h] => match hexToList? h with
+    | some b => match Spec.parseDER b with
+      | some (_, s) => if s ≤ halfN then "ok" else "err"
+      | none => "err"
+    | none => "bad-op"
+  | ["jac", a, b] => match hexToList? a, hexToList? b with
+    | some a, some b => match parseNoncePoint a, parseNoncePoint b with
+      | some p1, some p2 =>
+        let h (q : Point) := listToHex (noncePointBytes q)
+        s!"add={h (add p1 p2)} dbl={h (double p1)} g={h G} mk={h p1}"
+      | _, _ => "err"
+    | _, _ => "bad-op"
+  | ["decy", x, odd] => match hexToNat? x with
+    | some x => if x ≥ p then "ovf" else
+      match decompress x (odd == "1") with
+      | some (.aff _ y) => hex32 y
+      | _ => "err"
+    | none => "bad-op"
+  | ["pkutil", h] => match hexToList? h with
+    | some b =>
+      let c := b01 (b.length == 33 && (b.headD 0 == 2 || b.headD 0 == 3))
+      match parsePubKey b with
+      | some (.aff x y) =>
+        let q := Point.aff x y
+        s!"c={c} ok {listToHex (serializeCompressed q)} {listToHex (serializeXOnly q)} {listToHex (serializeCompressed q)} oc={b01 (onCurve q)} off={b01 (onCurve (.aff y x))}"
+      | _ => s!"c={c} err"
+    | none => "bad-op"
+  | ["psdec", h] => match hexToList? h with
+    | some b => if b.length < 32 then "err" else
+      let s := fromBE (b.take 32)
+      if s ≥ n then "err" else "ok " ++ hex32 s
+    | none => "bad-op"
+  | ["rfc", priv, hash, extra, version, iter] =>
+    match hexToList? priv, hexToList? hash, hexToList? extra, hexToList? version, iter.toNat? with
+    | some priv, some hash, some extra, some version, some iter =>
+      if priv.length ≠ 32 ∨ hash.length ≠ 32 then "bad-op" else hex32 (nonceRFC6979 priv hash extra iter version)
+    | _, _, _, _, _ => "bad-op"
+  | ["keyaggx", sort, keys, tw, kh, idx, _] =>
+    match parseKeys? keys, parseTweakOpt? tw, hexToList? kh, idx.toInt? with
+    | some keys, some tw, some kh, some idx =>
+      let keys := if sort == "1" then sortKeys keys else keys
+      let sk := if idx < 0 then none else (keys[idx.toNat]?).map serializeCompressed
+      match aggregateKeysWith keys kh sk (twOf tw) with
+      | some ak => s!"ok {showPoint ak.final} {showPoint ak.pre} {hex32 ak.gacc} {hex32 ak.tacc}"
+      | none => "err"
+    | _, _, _, _ => "bad-op"
   | ["pverify", s, pn, an, keys, pk, msg, sort, tw] =>
     match hexToNat? s, hexToList? pn, hexToList? an, parseKeys? keys, hexToList? pk, hexToList? msg, parseTweakOpt? tw with
     | some s, some pn, some an, some keys, some pk, some msg, some tw =>
@@ -142,7 +203,7 @@ def handleMusig : List String → String
     | _, _, _, _, _, _, _ => "bad-op"
   | _ => "bad-op"
 
-def handle : List String → String
+def handle1 : List String → String
   | ["der", h] => match hexToList? h with
     | some b => showSig (Spec.parseDER b)
     | none => "bad-op"
@@ -222,5 +283,12 @@ def handle : List String → String
     | some a, some b => s!"{listToHex (sharedSecret a (mulG b))} {listToHex (sharedSecret b (mulG a))}"
     | _, _ => "bad-op"
   | l => handleMusig l
+
+/-- top level: `conc a/b/c;d/e…` answers every sub-line (the Go side runs them concurrently, three rounds) -/
+def handle : List String → String
+  | ["conc", arg] =>
+    ";".intercalate ((arg.splitOn ";").map (fun sub =>
+      ((handle1 (sub.splitOn "/")).replace " " "/")))
+  | l => handle1 l
 
 end BV.C11.Driver
